@@ -144,6 +144,7 @@ def parse_obs(path):
             elif t == 'STEP': blk['step'] = f[1] == '1'
             elif t == 'QUIET': blk['quiet'] = f[1] == '1'
             elif t == 'QUIET2': blk['quiet2'] = f[1] == '1'
+            elif t == 'QUIET3': blk['quiet3'] = f[1] == '1'
             elif t == 'WF': blk['wf'] = f[1] == '1'
             elif t == 'PROBE': blk['probe'] = [tuple(x.split('=')) for x in f[1:]]
             elif t == 'VCOM': blk['vcom'] = dict((int(x.split(':')[0]), x.split(':')[1:]) for x in f[1:])
